@@ -261,6 +261,78 @@ def r08_8(chk, P, rule='R08.8'):
     return n
 
 
+def r08_9(chk, P, rule='R08.9'):
+    chk.rule(rule, 'a property of the page at hand is recomputed for every page: in vorbisfile.c a local that holds a predicate '
+             'on the current page (ogg_page_eos/bos/continued of the page object, or a comparison of the position '
+             '_get_next_page returned) is assigned on every path that leads from a page fetch through the submission of that page '
+             '(ogg_stream_pagein) to a use of the flag.  A flag that one branch '
+             'forgets to refresh describes an earlier page -- or no page at all -- when the packets of this one are handled '
+             '(ov_raw_seek: "is this the first page of the link?")')
+    n = 0
+    for F in P.functions():
+        if not F.file.endswith('vorbisfile.c'):
+            continue
+        fetches = [c for c in F.calls('_get_next_page')]
+        if not fetches:
+            continue
+        # where the fetch result lands
+        resvars = set()
+        for c in fetches:
+            p_ = F.sparent.get(c)
+            while p_ is not None and F.ex[p_]['k'] == 'cast':
+                p_ = F.sparent.get(p_)
+            if p_ is not None and F.ex[p_]['k'] == 'assign' and F.ex[p_]['op'] == '=':
+                l = F.ex[F.strip_casts(F.ex[p_]['c'][0])]
+                if l['k'] == 'ref':
+                    resvars.add(l['decl'].get('id'))
+
+        def page_predicate(e):
+            nd = F.ex[F.strip_casts(e)]
+            if nd['k'] == 'call' and nd['callee'].get('d') in ('ogg_page_eos', 'ogg_page_bos', 'ogg_page_continued'):
+                return True
+            if nd['k'] == 'bin' and nd['op'] in ('<', '<=', '>', '>=', '==', '!='):
+                return any(F.ex[q]['k'] == 'ref' and F.ex[q]['decl'].get('id') in resvars for q in F.walk(F.strip_casts(e)))
+            return False
+        flags = {}
+        for e in F.pos:
+            nd = F.ex[e]
+            if nd['k'] == 'assign' and nd['op'] == '=':
+                l = F.ex[F.strip_casts(nd['c'][0])]
+                if l['k'] == 'ref' and l['decl'].get('kind') == 'var' and page_predicate(nd['c'][1]):
+                    flags.setdefault(l['decl']['id'], []).append(e)
+        for vid, defs_ in sorted(flags.items()):
+            uses = [q for q in F.pos if F.ex[q]['k'] == 'ref' and F.ex[q]['decl'].get('id') == vid
+                    and not any(F.strip_casts(F.ex[d_]['c'][0]) == q for d_ in F.pos if F.ex[d_]['k'] == 'assign')]
+            alldefs = [d_ for d_ in F.pos if F.ex[d_]['k'] == 'assign' and F.ex[F.strip_casts(F.ex[d_]['c'][0])]['k'] == 'ref'
+                       and F.ex[F.strip_casts(F.ex[d_]['c'][0])]['decl'].get('id') == vid]
+            bad = None
+            # only pages that are handed to the stream count: a page skipped (foreign serial number) leaves the flags
+            # describing the last page that was submitted
+            submits = [c_ for c_ in F.calls('ogg_stream_pagein')]
+            for c in fetches:
+                for sp in submits:
+                    p1 = cfg.search(F, F.pos[c], lambda q, sp=sp: q == sp, lambda q: q in alldefs or (q in fetches and q != c))
+                    if p1 is None:
+                        continue
+                    for u in uses:
+                        p2 = cfg.search(F, F.pos[sp], lambda q, u=u: q == u, lambda q: q in alldefs or q in fetches)
+                        if p2 is not None:
+                            bad = (c, u, p1 + p2)
+                            break
+                    if bad:
+                        break
+                if bad:
+                    break
+            nm = F.vars.get(vid, {}).get('name', '?')
+            chk.ob(rule, F.name, f'page-flag-refreshed:{nm}', bad is None, F.where(bad[1]) if bad else F.where(defs_[0]),
+                   f'{nm} is assigned between every page fetch and every use ({len(uses)} uses)' if bad is None else
+                   f'{nm} (set from a predicate on the current page on line {F.loc(defs_[0])}) is used on line {F.loc(bad[1])} on a '
+                   f'path from the page fetch on line {F.loc(bad[0])} that does not assign it: it still describes an earlier page',
+                   path=cfg.block_lines(F, bad[2]) if bad else None)
+            n += 1
+    return n
+
+
 def run(chk, P):
     E = getattr(P, '_effects', None) or k3.Effects(P)
     P._effects = E
@@ -274,6 +346,8 @@ def run(chk, P):
     chk.floor('R08.5', 3)
     r08_8(chk, P)
     chk.floor('R08.8', 1)
+    r08_9(chk, P)
+    chk.floor('R08.9', 2)
     # R08.4a: the conversion of a target uses the set-up of the link it selected (shared implementation with C09 R09.4/R09.1)
     from rules import c09
 
